@@ -43,7 +43,9 @@ def main():
                         'proved': api.PROVED[0]})
         except BaseException as e:
             out.append({'error': 'native harness raised %s: %s\n%s' %
-                        (type(e).__name__, e, traceback.format_exc(limit=8))})
+                        (type(e).__name__, e, traceback.format_exc(limit=8)),
+                        'raised': type(e).__name__,
+                        'raised_msg': str(e)[:200]})
     sys.stdout = real_stdout
     json.dump(out, sys.stdout, default=str)
 
